@@ -127,6 +127,12 @@ def named_templates():
     T['absorbing-output-is-trigger+norepeat'] = [dict(frm=K('LEFTSHIFT', '$a0'), to=K('$a0'), absb=K('LEFTSHIFT')), dict(frm=K('$a1'), to=K('$a2'), rep=DISABLED),
                                                  dict(frm=K('$a3'), to=K('$a4'), rep=sp(['$a4'], 0))]
     T['absorbing-layer-with-output'] = [dict(frm=K('$a0'), to=K('LEFTCTRL')), dict(frm=K('$a0', '$a1'), to=K('$a2'), absb=K('$a0')), dict(frm=K('$a3'), to=K('$a2'))]
+    T['two-absorbing-same-trigger'] = [dict(frm=K('LEFTSHIFT', '$a0'), to=K('$a1'), absb=K('LEFTSHIFT')), dict(frm=K('RIGHTSHIFT', '$a0'), to=K('$a2'), absb=K('RIGHTSHIFT')),
+                                       dict(frm=K('LEFTSHIFT', '$a3'), to=K('$a4'))]
+    T['absorbing-two-modifiers'] = [dict(frm=K('LEFTCTRL', 'LEFTSHIFT', '$a0'), to=K('$a1'), absb=K('LEFTCTRL', 'LEFTSHIFT')), dict(frm=K('LEFTSHIFT', '$a2'), to=K('$a3')),
+                                    dict(frm=K('LEFTCTRL', '$a2'), to=K('$a4'))]
+    T['absorbing-output-remapped'] = [dict(frm=K('RIGHTSHIFT', '$a0'), to=K('$a1'), absb=K('RIGHTSHIFT')), dict(frm=K('$a1'), to=K('$a2'))]
+    T['absorbing-two-with-remap'] = [dict(frm=K('RIGHTCTRL'), to=K('LEFTSHIFT')), dict(frm=K('LEFTSHIFT', 'RIGHTCTRL', '$a0'), to=K('$a1'), absb=K('LEFTSHIFT', 'RIGHTCTRL'))]
     T['swap'] = [dict(frm=K('$a0'), to=K('$a1')), dict(frm=K('$a1'), to=K('$a0'))]
     T['hyper'] = [dict(frm=K('$a0'), to=K('LEFTCTRL', 'LEFTALT')), dict(frm=K('$a0', '$a1'), to=K('LEFTCTRL', 'LEFTALT', '$a2')), dict(frm=K('$a3'), to=K('LEFTSHIFT', '$a4'))]
     T['empty-layout'] = []
@@ -277,7 +283,7 @@ def build(repo, native, tier, seed, log=None):
             dict(frm=K('$a0', '$a2'), to=K('LEFTSHIFT', '$a5')), dict(frm=K('$a0', '$a3'), to=K('$a4'))]
     add_spec('template/three-chords-shared-modifier/N4', deep, 4, max(D, 20), alphabet=K('$a0', '$a1', '$a2', '$a3'),
              note='symbolic template, four keys held, event keys restricted to the four trigger keys', no_foreign=quick)
-    nrand = 14 if quick else 60
+    nrand = 8 if quick else 60
     for i in range(nrand):
         nm = rng.choice([1, 2, 2]) if quick else rng.choice([1, 2, 2, 3, 3])
         maps = random_template(rng, nm)
